@@ -143,15 +143,22 @@ func (c *StringScanner) PeekColumn() int {
 // Unread puts the specified character to the top of the stream.
 func (c *StringScanner) Unread() {
 	// Skip if we are at the beginning
-	if c.position < -1 {
+	if c.position < 0 {
 		return
 	}
 
 	// Update the current position
+	unreadChar := c.charAt(c.position)
+	atEnd := c.position >= len(c.content)
 	c.position--
 
+	// Stepping back from the end-of-input slot changes neither line nor column
+	if atEnd {
+		return
+	}
+
 	// Update line and columns (optimization)
-	if c.column > 0 {
+	if c.column > 0 && c.isColumn(unreadChar) {
 		c.column--
 		return
 	}
